@@ -56,6 +56,7 @@ type cfgT struct {
 	Max     int    `json:"max"`
 	Win     string `json:"win"`
 	Backoff bool   `json:"backoff"`
+	Mix     bool   `json:"mix"` // c2 gets its own supervisor with the other strategy
 	// DelayMs, when set, is the backoff's initial and maximum delay (witness behaviours that need
 	// a restart to stay pending for a while); ignored by the model
 	DelayMs int `json:"delayms,omitempty"`
@@ -545,7 +546,17 @@ func (d *driver) runBehaviour(ctx context.Context, id int, b *behaviour) []map[s
 	reg(pm, pp, err)
 	for _, k := range b.Kids {
 		km, ka := mk(k)
-		kp, err := pp.SpawnChild(ctx, k+suffix, ka, actor.WithLongLived(), actor.WithSupervisor(csup))
+		sup := csup
+		if k == "c2" && b.Cfg.Mix {
+			other := b.Cfg
+			if other.Strat == "all" {
+				other.Strat = "one"
+			} else {
+				other.Strat = "all"
+			}
+			sup = buildSupervisor(other)
+		}
+		kp, err := pp.SpawnChild(ctx, k+suffix, ka, actor.WithLongLived(), actor.WithSupervisor(sup))
 		reg(km, kp, err)
 	}
 	f.log(map[string]any{"op": "New", "cfg": b.Cfg, "pcfg": b.Pcfg})
